@@ -408,7 +408,7 @@ func max64(a, b int64) int64 {
 func genNoise(rng *rand.Rand, maxN int, spanUs int64, flood bool) []sim.Noise {
 	var out []sim.Noise
 	for k := between(rng, 0, maxN); k > 0; k-- {
-		kind := pick(rng, "tcpother", "udpother", "icmpother", "sctp", "v6frag", "rand", "randv4", "randv6")
+		kind := pick(rng, "tcpother", "udpother", "icmpother", "sctp", "v6frag", "rand", "randv4", "randv6", "badicmp")
 		switch kind {
 		case "rand", "randv4", "randv6":
 			kind = fmt.Sprintf("%s:%d", kind, pick(rng, 0, 1, 3, 19, 20, 21, 39, 40, 41, 60, 200, 1023, 1024, 1025, 2048))
@@ -416,7 +416,7 @@ func genNoise(rng *rand.Rand, maxN int, spanUs int64, flood bool) []sim.Noise {
 		out = append(out, sim.Noise{AtUs: int64(between(rng, 0, int(spanUs))), Kind: kind, Seed: rng.Uint32()})
 	}
 	if flood {
-		out = append(out, sim.Noise{AtUs: int64(between(rng, 0, 5000)), Kind: pick(rng, "icmpother", "tcpother", "randv4:64"), Seed: rng.Uint32(),
+		out = append(out, sim.Noise{AtUs: int64(between(rng, 0, 5000)), Kind: pick(rng, "icmpother", "tcpother", "randv4:64", "badicmp:0", "badicmp:1"), Seed: rng.Uint32(),
 			EveryUs: int64(pick(rng, 500, 2000, 9000, 30000)), UntilUs: spanUs * 3})
 	}
 	return out
